@@ -587,8 +587,10 @@ def run_task(task):
 
 
 def plan(tier, seed):
-    tasks = [{"kind": "hyp", "n": HYP_CASES[tier], "seed": seed * 1000 + w} for w in range(HYP_WORKERS)]
-    tasks += [{"kind": "exh", "shard": s, "nshards": NSHARDS, "depth": DEPTH[tier]} for s in range(NSHARDS)]
+    # exhaustive shards first: the runner reports the first violation per clause in task order, and
+    # the exhaustive engine's counterexamples are minimal (<= 3 or 4 ops over <= 5 bytes)
+    tasks = [{"kind": "exh", "shard": s, "nshards": NSHARDS, "depth": DEPTH[tier]} for s in range(NSHARDS)]
+    tasks += [{"kind": "hyp", "n": HYP_CASES[tier], "seed": seed * 1000 + w} for w in range(HYP_WORKERS)]
     return tasks
 
 
